@@ -45,6 +45,10 @@ func catSetup() {
 		return catFns[f.Cat]
 	}
 	catalogName = func(f *Func) string {
+		// the location given with LocationForPC is the function's name for dig
+		if t := locTarget(f); t >= 0 && f.Role == RoleCtor {
+			return fmt.Sprintf("digsim.Cat%d", t)
+		}
 		if f.Cat < 0 {
 			return ""
 		}
